@@ -1,16 +1,19 @@
-(** C12 — after shutdown is requested the scanner stops within (entries left of the current mailbox snapshot + 1) of its own steps, whatever other clients do; between mailboxes it takes at most one more snapshot; once stopped it removes nothing more; the run loop returns (Join returns) as soon as it sees the cancellation *)
+(** C12 — the select at the end of a DoScan callback, shutdown requested: the ctx case ends the scan at once, the timer case (ready only if RetentionSleep's timer has already expired — a real race in Go for RetentionSleep near 0) lets it go on; when the ctx case wins every such select ([ctx_first]: the timer has not expired, e.g. the default 50 ms) the scanner stops within (entries left of the current mailbox snapshot + 1) of its own steps — each of which may be one RemoveMessage call: a mailbox with n expired messages delays the stop by up to n removals — whatever other clients do; between mailboxes it takes at most one more snapshot; once stopped it removes nothing more; the toy run loop of Model/Retention.v returns as soon as it sees the cancellation (the real loop: loop_cancel_prompt) *)
 From Coq Require Import ZArith.
 From IV Require Import Base.Bytes Model.StoreSpec Model.Retention Proofs.Retention.
 Theorem cancel_bounded : forall cfg cutoff,
-  (forall evs y mb rest, s_cancel y = true -> s_phase y = PBox mb rest -> (S (length rest) <= steps_in evs)%nat ->
+  (forall y mb, s_cancel y = true -> s_phase y = PBox mb [] ->
+     s_phase (sc_step cfg cutoff false y) = PDone true /\ s_phase (sc_step cfg cutoff true y) = PIdle /\
+     s_st (sc_step cfg cutoff false y) = s_st y /\ s_st (sc_step cfg cutoff true y) = s_st y) /\
+  (forall evs y mb rest, ctx_first evs -> s_cancel y = true -> s_phase y = PBox mb rest -> (S (length rest) <= steps_in evs)%nat ->
      s_phase (run cfg cutoff y evs) = PDone true) /\
-  (forall y, s_phase y = PIdle ->
-     (exists mb, s_phase (sc_step cfg cutoff y) = PBox mb (snapshot (s_st y) mb)) \/ s_phase (sc_step cfg cutoff y) = PDone false) /\
+  (forall y tf, s_phase y = PIdle ->
+     (exists mb, s_phase (sc_step cfg cutoff tf y) = PBox mb (snapshot (s_st y) mb)) \/ s_phase (sc_step cfg cutoff tf y) = PDone false) /\
   (forall evs y b, s_phase y = PDone b ->
      s_phase (run cfg cutoff y evs) = PDone b /\ s_removed (run cfg cutoff y evs) = s_removed y) /\
   (forall period evs, In LCancel evs -> snd (start period evs) = true).
 Proof.
-  intros cfg cutoff. split; [exact (Retention.cancel_bounded cfg cutoff)|].
+  intros cfg cutoff. split; [exact (callback_end_choice cfg cutoff)|]. split; [exact (Retention.cancel_bounded cfg cutoff)|].
   split; [exact (cancel_idle cfg cutoff)|]. split; [exact (done_stays cfg cutoff)|exact start_exits].
 Qed.
 Print Assumptions cancel_bounded.
